@@ -27,7 +27,16 @@ def hProcRanks (j : Json) : R Json := do
 /-- `proc.run`: single-rank compute() on a status mask; results are reported as the list of
     positions whose slot holds `f p` afterwards (slots start as `none`) -/
 def hProcRun (j : Json) : R Json := do
-  let status ← natList j "status"
+  -- the marks compute() starts from: a status dataset ("status"), or a group without one ("n" positions and,
+  -- for a group left by an old version, "last_pixel")
+  let status ← match j.getObjVal? "status" with
+    | .ok _ => natList j "status"
+    | .error _ => do
+      let n ← nat j "n"
+      let lp := match j.getObjVal? "last_pixel" with
+        | .ok v => (v.getInt?).toOption
+        | .error _ => none
+      pure (initialStatus n none lp)
   let batch ← nat j "batch"
   if h : 0 < batch then
     let s : DS (Option Nat) := { results := status.map (fun _ => none), status := status }
